@@ -174,7 +174,9 @@ def run_case(case):
                 res.label("onto_content" if overlapping else "grows")
 
             def assign():
-                if kind == "set":
+                if kind == "set" and op.get("rows_only") and c0 == 0 and c1 == width and not isinstance(block, str):
+                    a[r0:r1] = block  # a row slice alone addresses the full width
+                elif kind == "set":
                     a[r0:r1, c0:c1] = block
                 else:
                     a[op["r"], op["c"]] = block
@@ -342,7 +344,8 @@ def history(draw):
             for _ in range(nrows):
                 ln = draw(st.sampled_from([rw, rw, rw, max(rw - 1, 0), 0, rw + 1, rw + 2, max(rw - 2, 0)]))
                 block.append(draw(rowspec(ln)))
-            ops.append({"op": "set", "r0": r0, "r1": r1, "c0": c0, "c1": c1, "block": block, "as": draw(st.sampled_from(["list", "list", "fsarray"]))})
+            ops.append({"op": "set", "r0": r0, "r1": r1, "c0": c0, "c1": c1, "block": block, "as": draw(st.sampled_from(["list", "list", "fsarray"])),
+                        "rows_only": draw(st.booleans())})
             h = max(h, r1)
         elif k == 6:
             r, c = draw(st.integers(0, h + 2)), draw(st.integers(0, max(w - 1, 0)))
